@@ -71,6 +71,20 @@ pub fn scenarios(quick: bool) -> Vec<Scenario> {
         programs: vec![vec![], s(&["increment k", "remove k"]), s(&["increment k"])],
         sub_keys: vec!["k"],
     });
+    // writes that arrive over a replication link (an administrator session issuing replicate*)
+    let link = || vec![format!("auth {} {}", USER, PWD)];
+    out.push(Scenario {
+        name: "replicated-writes",
+        setup: Setup { strategy: "none", init: s(&["set k 0", "set j 0"]), session_init: vec![vec![tok(), "watch k".into()], link(), vec![tok()]], check_replica: false },
+        programs: vec![vec![], s(&["replicate t k -1 a1", "replicate t j -1 x1", "replicate-remove t k"]), s(&["set k a2"])],
+        sub_keys: vec!["k"],
+    });
+    out.push(Scenario {
+        name: "replicated-increments",
+        setup: Setup { strategy: "none", init: s(&["set k 5"]), session_init: vec![vec![tok(), "watch k".into()], link(), vec![tok()]], check_replica: false },
+        programs: vec![vec![], s(&["replicate-increment t k 1", "replicate t k -1 a1"]), s(&["increment k"])],
+        sub_keys: vec!["k"],
+    });
     if !quick {
         out.push(Scenario {
             name: "two-subscribers-two-writers",
@@ -135,7 +149,17 @@ fn judge(sc: &Scenario, ops: &[OpRec], sub_msgs: &[String], probe: &[(String, bo
         let mut inc_must = 0i64;
         let mut inc_may = 0i64;
         for o in ops.iter() {
-            let mut p = o.line.split(' ');
+            // a write arriving over a replication link is a mutation like any other
+            let norm: String = {
+                let t: Vec<&str> = o.line.split(' ').collect();
+                match t.first().copied() {
+                    Some("replicate") if t.len() >= 5 => format!("set {} {}", t[2], t[4..].join(" ")),
+                    Some("replicate-remove") if t.len() >= 3 => format!("remove {}", t[2]),
+                    Some("replicate-increment") if t.len() >= 3 => format!("increment {}", t[2]),
+                    _ => o.line.clone(),
+                }
+            };
+            let mut p = norm.split(' ');
             let cmd = p.next().unwrap_or("");
             if p.next() != Some(*key) {
                 continue;
@@ -185,7 +209,7 @@ fn judge(sc: &Scenario, ops: &[OpRec], sub_msgs: &[String], probe: &[(String, bo
             return Some(Judged { clause: if n_inc < inc_must { "missed-notification".into() } else { "duplicate-notification".into() }, detail: format!("{} increment notifications for {}, expected between {} and {}; stream {:?}", n_inc, key, inc_must, inc_must + inc_may, sub_msgs) });
         }
         // (5) highest-versioned notification carries the current value (keys written only by set/set-safe)
-        let only_sets = ops.iter().all(|o| !(o.line.starts_with(&format!("remove {}", key)) || o.line.starts_with(&format!("increment {}", key))));
+        let only_sets = ops.iter().all(|o| !(o.line.starts_with(&format!("remove {}", key)) || o.line.starts_with(&format!("increment {}", key)) || o.line.starts_with(&format!("replicate-remove t {}", key)) || o.line.starts_with(&format!("replicate-increment t {}", key))));
         if only_sets && u_call == inf && w_ret == 0 {
             let mut best: Option<(i32, String)> = None;
             for m in sub_msgs.iter() {
